@@ -374,7 +374,12 @@ func (g *netGen) churnOp(faults bool, lazyOK bool) {
 	case x == 9 && faults:
 		a, b := g.randomEdge()
 		if a >= 0 {
-			g.add("stall", int64(a), int64(b), int64(r.rng(100, 4000)))
+			if r.chance(0.4) {
+				// a slow link instead: one frame per interval, so that the queue drains bit by bit
+				g.add("slow", int64(a), int64(b), int64(r.rng(50, 600)), int64(r.rng(1000, 8000)))
+			} else {
+				g.add("stall", int64(a), int64(b), int64(r.rng(100, 4000)))
+			}
 			// a burst of interest changes while the link is stalled: announcements hit a full queue
 			for k := r.rng(0, 5); k > 0; k-- {
 				if r.chance(0.5) {
@@ -395,7 +400,7 @@ func (g *netGen) churnOp(faults bool, lazyOK bool) {
 		}
 	case x == 10:
 		if r.chance(0.5) {
-			g.add("tclose", int64(i), int64(t))
+			g.add("tclose", int64(i), int64(t), int64(bint(faults && r.chance(0.3))))
 		} else {
 			g.add("recancel", int64(i), int64(r.intn(4)))
 		}
@@ -590,6 +595,74 @@ func (g *netGen) genC05() {
 					g.resets[[2]int{a, b}]++
 					g.add("reset", int64(a), int64(b), int64(bint(r.chance(0.4))))
 				}
+			}
+		}
+		if r.chance(0.1) && g.n >= 3 {
+			// two peers arrive at a busy node, one of them leaves before the node gets to them
+			pm := r.perm(g.n)
+			i, a, b := pm[0], pm[1], pm[2]
+			if !g.edges[pairKey(i, a)] && !g.edges[pairKey(i, b)] && g.deg[i] < g.caps[i] && g.deg[b] < g.caps[b] {
+				g.add("connburst", int64(i), int64(a), int64(b))
+				g.edges[pairKey(i, b)] = true
+				g.deg[i]++
+				g.deg[b]++
+				g.smallAdv()
+			}
+		}
+		if r.chance(0.06) {
+			// announcements dropped at a full queue are still waiting for their retry when the
+			// application closes the topic and joins it again with the other FanoutOnly setting
+			var cand []int
+			for i := 0; i < g.n; i++ {
+				if g.totalSubs(i) == 0 {
+					cand = append(cand, i)
+				}
+			}
+			if a, b := g.randomEdge(); a >= 0 && len(cand) > 0 {
+				i := cand[r.intn(len(cand))]
+				j := -1
+				for _, e := range [][2]int{{a, b}, {b, a}} {
+					if e[0] == i {
+						j = e[1]
+					}
+				}
+				if j < 0 {
+					for y := 0; y < g.n; y++ {
+						if g.edges[pairKey(i, y)] {
+							j = y
+						}
+					}
+				}
+				if j >= 0 {
+					t := r.intn(g.nt)
+					g.add("stall", int64(i), int64(j), int64(r.rng(1500, 4000)))
+					for k := r.rng(1, 6); k > 0; k-- {
+						g.add("sub", int64(i), int64(t), 0, 0)
+						g.add("cancel", int64(i), 0)
+						if r.chance(0.3) {
+							g.add("advus", int64(r.rng(1, 3000)))
+						}
+					}
+					g.add("tclose", int64(i), int64(t), 1)
+					if r.chance(0.8) {
+						g.sub(i, t, false)
+					}
+				}
+			}
+		}
+		if r.chance(0.05) {
+			// four transient stream losses (all answered by a respawn), a pause just longer than the
+			// period after which the library forgets them, then a fifth
+			if a, b := g.randomEdge(); a >= 0 && g.resets[[2]int{a, b}] == 0 && g.resets[[2]int{b, a}] == 0 {
+				g.add("adv", int64(r.rng(1500, 4000)))
+				for k := 0; k < 4; k++ {
+					g.add("reset", int64(a), int64(b), 0)
+					g.add("adv", int64(r.rng(1500, 4000)))
+				}
+				g.add("adv", int64(r.rng(601000, 661000)))
+				g.add("reset", int64(a), int64(b), int64(bint(r.chance(0.4))))
+				g.resets[[2]int{a, b}] = 3
+				g.resets[[2]int{b, a}] = 3
 			}
 		}
 		for k := r.rng(2, 14); k > 0; k-- {
